@@ -65,7 +65,7 @@ def step (m : MemFs) : Op → MemFs × MRes
   | .hClose h => m.hClose h
   | .hName h => (m, m.hName h)
   | .hStat h => (m, m.hStat h)
-  | .hSync _ => (m, .ok)
+  | .hSync h => (m, if h < m.handles.length then .ok else .err .inval)
   | .hReaddir h n =>
     let (m', fs, e) := m.readdir h n
     (m', match fs with
